@@ -484,6 +484,51 @@ def check_filter(ctx, rule, fn, m, lp, tol, nmax_name, default_only=False):
                   sample={"tolerance": tl, "largest_exponent": dmax, "filters": [src(c) for c, _ in bounds]})
 
 
+def rotation_builder_run(ctx, b, fn, kw, steps):
+    """_build_cmds_single_qubit_rotation executed with the decomposition modelled (it returns `steps`) and the emitting primitives recorded
+    -> (outcome, log, asked)"""
+    from .. import circuit as C
+    repo = ctx.repo
+    log = []
+    asked = []
+    sc = C.Scenario()
+    regs = []
+
+    def get_reg(*a_, **k_):
+        regs.append(C.RegSym(f"Q{len(regs)}"))
+        return regs[-1]
+
+    sc.overrides.update({"_get_qubit_register": get_reg,
+                         "_build_cmds_set_register_value": lambda register=None, value=None, *a_, **k_: log.append(("set", register, value if value is not None else (a_[0] if a_ else None))),
+                         "subrt_add_pending_command": lambda command=None, *a_, **k_: log.append(("cmd", command)),
+                         "get_angle_spec_from_float": lambda angle=None, *a_, **k_: (asked.append((angle, a_, k_)), list(steps))[1]})
+    o = C.object_from_init(repo, b, {}, kind="self")
+    try:
+        C.Interp(repo, ctx.ev, sc, b).call_function(b.module, fn, [], dict(kw), self_obj=o)
+    except C.EvalRaise as ex_:
+        return f"raises {ex_.exc_name}", log, asked
+    return "ok", log, asked
+
+def rotation_builder_rotations(log):
+    """[(qubit id set into the register, instruction name, n, d)] - None when the log is not set/rotation pairs on one register"""
+    from .. import circuit as C
+    from ..model import EnumMember
+    out = []
+    if len(log) % 2:
+        return None
+    for i_ in range(0, len(log), 2):
+        s_, c_ = log[i_], log[i_ + 1]
+        if s_[0] != "set" or c_[0] != "cmd" or not isinstance(c_[1], C.Obj):
+            return None
+        ops = c_[1].fields.get("operands")
+        ins = c_[1].fields.get("instruction")
+        if not isinstance(ops, list) or len(ops) != 3 or ops[0] is not s_[1]:
+            return None
+        out.append((s_[2], ins.name if isinstance(ins, EnumMember) else ins, ops[1], ops[2]))
+    return out
+
+
+
 def check_builder(ctx, rule="C19.E"):
     repo = ctx.repo
     b = repo.get_class("netqasm.sdk.builder", "Builder")
@@ -502,43 +547,8 @@ def check_builder(ctx, rule="C19.E"):
     steps = [(3, 1), (0, 0), (255, 9), (1, 7)]
     ctx.anchor(rule, "float-angle arm of the rotation builder", 1, 1)
 
-    def run_(kw):
-        log = []
-        asked = []
-        sc = C.Scenario()
-        regs = []
-
-        def get_reg(*a_, **k_):
-            regs.append(C.RegSym(f"Q{len(regs)}"))
-            return regs[-1]
-
-        sc.overrides.update({"_get_qubit_register": get_reg,
-                             "_build_cmds_set_register_value": lambda register=None, value=None, *a_, **k_: log.append(("set", register, value if value is not None else (a_[0] if a_ else None))),
-                             "subrt_add_pending_command": lambda command=None, *a_, **k_: log.append(("cmd", command)),
-                             "get_angle_spec_from_float": lambda angle=None, *a_, **k_: (asked.append((angle, a_, k_)), list(steps))[1]})
-        o = C.object_from_init(repo, b, {}, kind="self")
-        try:
-            C.Interp(repo, ctx.ev, sc, b).call_function(b.module, fn, [], dict(kw), self_obj=o)
-        except C.EvalRaise as ex_:
-            return f"raises {ex_.exc_name}", log, asked
-        return "ok", log, asked
-
-    def rotations(log):
-        """[(qubit id set into the register, instruction name, n, d)] - None when the log is not set/rotation pairs on one register"""
-        out = []
-        if len(log) % 2:
-            return None
-        for i_ in range(0, len(log), 2):
-            s_, c_ = log[i_], log[i_ + 1]
-            if s_[0] != "set" or c_[0] != "cmd" or not isinstance(c_[1], C.Obj):
-                return None
-            ops = c_[1].fields.get("operands")
-            ins = c_[1].fields.get("instruction")
-            if not isinstance(ops, list) or len(ops) != 3 or ops[0] is not s_[1]:
-                return None
-            out.append((s_[2], ins.name if isinstance(ins, EnumMember) else ins, ops[1], ops[2]))
-        return out
-
+    run_ = lambda kw: rotation_builder_run(ctx, b, fn, kw, steps)
+    rotations = rotation_builder_rotations
     ok, detail = True, ""
     try:
         outcome, log, asked = run_({"instruction": rotx, "virtual_qubit_id": 5, "angle": 0.7})
